@@ -528,6 +528,55 @@ def close_burst_session(seed):
     return s.ops
 
 
+def many_channels_session(seed):
+    """C16 / C10 / C14: many channels open at the same time - the open-channel index has to grow (32, 64, 128 entries) - opened from both sides, some
+    closed and released again, then everything torn down: every block must come back, the index stays sorted, traffic keeps flowing"""
+    rng = random.Random(seed)
+    s = Session(rng)
+    s.op("reset")
+    s.op("conn 1")
+    s.op("conn 2")
+    a_out, b_out = seq_choice(rng), seq_choice(rng)
+    s.op("seqinit 1 %d %d" % (b_out, a_out))
+    s.op("seqinit 2 %d %d" % (a_out, b_out))
+    s.note("peers 1 2")
+    n = rng.choice([31, 32, 33, 34, 40, 63, 64, 65, 66, 100, 128, 129, 130])
+    universe = list(range(0, 200)) + [8191, 8192, 16383, 16384, 32765, 32766]
+    pool = rng.sample(universe, n)
+    side_of = {}
+    for k, ch in enumerate(pool):
+        side = 1 if rng.random() < 0.8 else 2
+        side_of[ch] = side
+        s.op("send %d %d 9 0 1 %d %d" % (side, ch, rng.choice([0, 8, 40]), s.next_pseed()))
+        if k % 7 == 6 or k in (30, 31, 32, 33, 62, 63, 64, 65, 126, 127, 128, 129):
+            drain(s, 1, 2, rounds=1, update=rng.random() < 0.5)
+    drain(s, 1, 2, rounds=2, update=True)
+    s.op("chans 1")
+    s.op("chans 2")
+    closing = rng.sample([c for c in pool if c != 0], rng.randint(0, min(12, n - 1)))
+    for ch in closing:
+        s.op("send %d %d 10 %d 0 %d %d" % (side_of[ch], ch, rng.randint(0, 14), rng.choice([0, 8]), s.next_pseed()))
+    for ch in rng.sample(pool, min(10, n)):
+        if ch not in closing:
+            s.op("send %d %d 8 0 0 %d %d" % (side_of[ch], ch, payload_bits(rng, small=True), s.next_pseed()))
+    s.note("drain")
+    drain(s, 1, 2, rounds=5, update=True)
+    s.note("drained")
+    s.op("nodes")
+    s.op("chans 1")
+    s.op("chans 2")
+    # more channels after some were released: the index grows again or re-uses the room
+    for ch in rng.sample([c for c in universe if c not in pool], rng.randint(0, 40)):
+        s.op("send 1 %d 9 0 1 8 %d" % (ch, s.next_pseed()))
+    drain(s, 1, 2, rounds=3, update=True)
+    s.op("nodes")
+    s.op("chans 1")
+    s.op("chans 2")
+    if rng.random() < 0.5:
+        s.op("uninit %d" % rng.choice([1, 2]))
+    return s.ops
+
+
 def window_session(seed):
     """many packets in flight with the peer's acks delayed or withheld: ack-history length 1..8 words, more than 256 packets
     awaiting a verdict, data pending in the send buffer while acknowledgements arrive"""
